@@ -11,7 +11,9 @@ const (
 	gcStateUnsend
 )
 
-type traverseCallback func(sub *Subscription, state gcState) gcState
+// traverseCallback is called for each subscription reached. unsent tells if
+// the reference it was reached through is yet to be sent to the client.
+type traverseCallback func(sub *Subscription, state gcState, unsent bool) gcState
 
 func (c *wsConn) tryDelete(s *Subscription) {
 	type subRef struct {
@@ -41,20 +43,26 @@ func (c *wsConn) tryDelete(s *Subscription) {
 	}
 
 	// Count down indirect references
-	s.traverse(gcStateRoot, func(s *Subscription, state gcState) gcState {
+	s.traverse(gcStateRoot, false, func(s *Subscription, state gcState, unsent bool) gcState {
 		if state == gcStateRoot {
 			return gcStateNone
 		}
 
+		// A reference yet to be sent is not counted as a sent one
+		sd := sentDiff
+		if unsent {
+			sd = 0
+		}
+
 		if r, ok := refs[s.RID()]; ok {
 			r.indirect--
-			r.indirectsent -= sentDiff
+			r.indirectsent -= sd
 			return gcStateStop
 		}
 		refs[s.RID()] = &subRef{
 			sub:          s,
 			indirect:     s.indirect - 1,
-			indirectsent: s.indirectsent - sentDiff,
+			indirectsent: s.indirectsent - sd,
 			state:        gcStateNone,
 		}
 		return gcStateNone
@@ -67,7 +75,7 @@ func (c *wsConn) tryDelete(s *Subscription) {
 	}
 
 	// Mark for deletion or unsend
-	s.traverse(gcStateDelete, func(s *Subscription, state gcState) gcState {
+	s.traverse(gcStateDelete, false, func(s *Subscription, state gcState, _ bool) gcState {
 		r := refs[s.RID()]
 
 		if r.state >= gcStateKeep {
@@ -75,7 +83,7 @@ func (c *wsConn) tryDelete(s *Subscription) {
 		}
 
 		if r.indirect > 0 || state == gcStateKeep {
-			if sent && r.indirectsent == 0 {
+			if sent && r.sub.IsSent() && r.indirectsent == 0 {
 				r.state = gcStateUnsend
 			} else {
 				r.state = gcStateKeep
@@ -106,17 +114,17 @@ func (c *wsConn) tryDelete(s *Subscription) {
 	}
 }
 
-func (s *Subscription) traverse(state gcState, cb traverseCallback) {
+func (s *Subscription) traverse(state gcState, unsent bool, cb traverseCallback) {
 	if s.direct > 0 {
 		return
 	}
 
-	state = cb(s, state)
+	state = cb(s, state, unsent)
 	if state == gcStateStop {
 		return
 	}
 
 	for _, ref := range s.refs {
-		ref.sub.traverse(state, cb)
+		ref.sub.traverse(state, ref.unsent, cb)
 	}
 }
